@@ -44,6 +44,7 @@ from ._common import (
     get_optionals_as_positionals_actions,
     is_dataclass_like,
     lenient_check,
+    parent_parser,
     parser_context,
     supports_optionals_as_positionals,
 )
@@ -448,6 +449,7 @@ class ArgumentParser(ParserDeprecations, ActionsContainer, ArgumentLinking, argp
             if not all(isinstance(a, str) for a in args):
                 self.error(f"All arguments are expected to be strings: {args}")
         self.args = args
+        outermost = parent_parser.get() is None  # not the parse of a subcommand inside a parent's parse_args
 
         try:
             cfg = self._parse_defaults_and_environ(defaults, env)
@@ -471,7 +473,10 @@ class ArgumentParser(ParserDeprecations, ActionsContainer, ArgumentLinking, argp
         except (TypeError, KeyError) as ex:
             self.error(str(ex), ex)
         finally:
-            self.__dict__.pop("print_config", None)  # a --print_config request never outlives its parse_args call
+            parser: Optional[ArgumentParser] = self
+            while parser is not None:  # a --print_config request never outlives its outermost parse_args call
+                parser.__dict__.pop("print_config", None)
+                parser = getattr(parser, "parent_parser", None) if outermost else None
 
         self._logger.debug("Parsed command line arguments: %s", args)
         return parsed_cfg
